@@ -1188,6 +1188,12 @@ class IntGen:
         if op == "If":
             c, vc = self.boolean(depth - 1) if self.i(0, 3) else self.any(depth - 1)
             (a, va), (b, vb) = sub(), sub()
+            if self.i(0, 3) == 0:
+                # a conditional as the condition (and as a branch) of a conditional
+                (c1, vc1), (c2, vc2) = self.boolean(depth - 2), self.boolean(depth - 2)
+                c, vc = ["If", c, c1, c2], (vc1 if vc else vc2)
+                if self.i(0, 1):
+                    a, va = ["If", c2, a, b], (va if vc2 else vb)
             return ["If", c, a, b], (va if vc else vb)
         if op == "Power":
             ex = self.pick((0, 1, 1, 2, 2))
